@@ -219,6 +219,8 @@ pub fn run(ctx: &mut Ctx) {
     ctx.assumptions = vec![
         "entries are dyadic rationals so the reference is exact up to the final division; results compared with 1e-6".into(),
         "negative similarities are legal values of a user-supplied term similarity".into(),
+        "two sets that live on two Ontology instances with the same content are an ordinary pair of term sets (the API accepts them and compares terms by id)".into(),
+        "sizes: the crate documents a panic ('Matrix too large') above 65 535 rows or columns; sets stay at or below that".into(),
     ];
     let ids: Vec<u32> = (0..N_TERMS as u32).map(|i| BASE + i).collect();
     let mut f = Facts::default();
